@@ -851,7 +851,12 @@ def correspondence(ctx, model_ok=True):
                 c = first_bad_prefix(ctx, c)
             elif len(out["failures"]) >= 6:
                 break
-            out["failures"].append(Failure(c, f"model and implementation disagree (code {code}) on a {c['kind']} case"))
+            key = None
+            msg = oracle(c)
+            if msg and "(or not a number)" in msg and "nan" in msg.split(":")[0]:
+                key = "C17-nan-coordinate"              # one finding class, reported once
+            out["failures"].append(Failure(c, f"model and implementation disagree (code {code}) on a {c['kind']} case",
+                                           key=key, on_impl=msg))
     return out
 
 
